@@ -68,6 +68,16 @@ DIALECT_PROBES = [
      "src": "package p\n\nfunc w(xs []int) int {\n\tdefer func() {\n\t\trecover()\n\t}()\n\tfor range xs {\n\t\tpanic(\"x\")\n\t}\n\treturn 1\n}\n\nfunc F() int {\n\treturn w([]int{1}) + 5\n}\n"},
     {"name": "recovered-panic-inside-switch-leaks-stack", "func": "F", "args": [[1]],
      "src": "package p\n\nfunc w(a int) int {\n\tdefer func() {\n\t\trecover()\n\t}()\n\tswitch a {\n\tcase 1:\n\t\tpanic(\"x\")\n\t}\n\treturn 1\n}\n\nfunc F(a int) int {\n\treturn w(a) + 5\n}\n"},
+    {"name": "return-values-evaluated-right-to-left", "func": "F", "args": [[]],
+     "src": "package p\n\ntype S struct {\n\tA int\n\tB int\n}\n\nvar g int\n\nfunc a() int {\n\tg = g*10 + 1\n\treturn 1\n}\n\nfunc b() int {\n\tg = g*10 + 2\n\treturn 2\n}\n\nfunc two() (int, int) {\n\treturn a(), b()\n}\n\nfunc F() int {\n\tx, y := two()\n\treturn g*100 + x*10 + y\n}\n"},
+    {"name": "slice-literal-evaluated-right-to-left", "func": "F", "args": [[]],
+     "src": "package p\n\ntype S struct {\n\tA int\n\tB int\n}\n\nvar g int\n\nfunc a() int {\n\tg = g*10 + 1\n\treturn 1\n}\n\nfunc b() int {\n\tg = g*10 + 2\n\treturn 2\n}\n\nfunc F() int {\n\ts := []int{a(), b()}\n\treturn g*100 + s[0]*10 + s[1]\n}\n"},
+    {"name": "struct-literal-evaluated-right-to-left", "func": "F", "args": [[]],
+     "src": "package p\n\ntype S struct {\n\tA int\n\tB int\n}\n\nvar g int\n\nfunc a() int {\n\tg = g*10 + 1\n\treturn 1\n}\n\nfunc b() int {\n\tg = g*10 + 2\n\treturn 2\n}\n\nfunc F() int {\n\ts := S{a(), b()}\n\treturn g*100 + s.A*10 + s.B\n}\n"},
+    {"name": "map-literal-value-evaluated-before-key", "func": "F", "args": [[]],
+     "src": "package p\n\ntype S struct {\n\tA int\n\tB int\n}\n\nvar g int\n\nfunc a() int {\n\tg = g*10 + 1\n\treturn 1\n}\n\nfunc b() int {\n\tg = g*10 + 2\n\treturn 2\n}\n\nfunc F() int {\n\tm := map[int]int{a(): b()}\n\treturn g*100 + len(m)\n}\n"},
+    {"name": "element-assignment-evaluates-value-before-index", "func": "F", "args": [[]],
+     "src": "package p\n\ntype S struct {\n\tA int\n\tB int\n}\n\nvar g int\n\nfunc a() int {\n\tg = g*10 + 1\n\treturn 1\n}\n\nfunc b() int {\n\tg = g*10 + 2\n\treturn 2\n}\n\nfunc F() int {\n\ts := []int{7, 8, 9}\n\ts[a()] = b()\n\treturn g*100 + s[1]\n}\n"},
     {"name": "append-modifies-operand", "func": "F", "args": [[3]],
      "src": "package p\n\nfunc F(x int) int {\n\ts := []int{1, 2}\n\tt := append(s, x)\n\tt[0] = 9\n\treturn s[0]*10 + len(s)\n}\n"},
     {"name": "byte-subslice-copies", "func": "F", "args": [[]],
